@@ -50,7 +50,7 @@ from datetime import datetime, timedelta, timezone
 REPO = os.environ.get("VERIF_REPO", "/repo")
 if REPO not in sys.path:
     sys.path.insert(0, REPO)
-from harness.c14_gen import expand_events, legacy_prints, listing  # noqa: E402
+from harness.c14_gen import apply_raw, expand_events, legacy_prints, listing  # noqa: E402
 EPOCH = datetime(1970, 1, 1, tzinfo=timezone.utc)
 US = timedelta(microseconds=1)
 
@@ -159,14 +159,18 @@ def build_store(xdg, spec):
             errs.append(err)
     d = dump_store(st)
     st.db.close()
+    f = os.path.join(data_dir(xdg), "peewee-sqlite" + ("-testing" if spec["testing"] else "") + ".v2.db")
     if spec.get("old_schema"):
         # a legacy file from before bucketmodel.datastr existed (auto_migrate's reason to be)
         import sqlite3
-        f = os.path.join(data_dir(xdg), "peewee-sqlite" + ("-testing" if spec["testing"] else "") + ".v2.db")
         c = sqlite3.connect(f)
         c.execute("ALTER TABLE bucketmodel DROP COLUMN datastr")
         c.commit()
         c.close()
+    if spec.get("raw"):
+        # round 5: the same content in a shape the legacy schema allows and today's writer never produces
+        # (plain sqlite3; harness.c14_gen.apply_raw checks that the content is what it was)
+        apply_raw(f, spec["raw"])
     return {"testing": spec["testing"], "ops": ops, "errs": errs, "dump": d}
 
 
